@@ -1,4 +1,6 @@
 """C16 - structural decompositions of a graph are exact and weight-preserving (E1)."""
+import itertools
+
 import numpy as np
 
 import sempler.utils as U
@@ -27,6 +29,7 @@ def units(tier, seed):
     # wide graphs (p = 10, node indices >= 8): every PDAG with <= 2 edges and targeted colliders
     out += [{"stage": "pdag", "p": _g.WIDE_P, "codes": c} for c in split_list(_g.wide_sparse_codes("pdag"), 16)]
     out.append({"stage": "wide-targeted"})
+    out.append({"stage": "big"})         # 70 nodes, edges on node indices >= 64
     return out
 
 
@@ -117,6 +120,9 @@ def check_graph(p, ch, und, A):
     # triples for the wide graphs)
     if p <= 5:
         masks = range(1 << p)
+    elif p > 10:    # 70-node graphs: every subset of size <= 3 of the nodes that carry an edge (plus node 0), the empty and the full set
+        act = sorted(set([0] + [i for i in range(p) if adjm[i]]))
+        masks = [0, (1 << p) - 1] + [sum(1 << i for i in c) for k in (1, 2, 3) for c in itertools.combinations(act, k)]
     else:
         masks = [0, (1 << p) - 1] + [1 << i for i in range(p)] + [(1 << i) | (1 << j) for i in range(p) for j in range(i + 1, p)]
         masks += [(1 << 1) | (1 << 8) | (1 << 4), (1 << 2) | (1 << 9) | (1 << 0), (1 << 3) | (1 << 8) | (1 << 9) | (1 << 4)]
@@ -145,6 +151,8 @@ def build(p, code, lab):
         return ch, und, np.asfortranarray(_g.pdag_matrix(p, ch, und))
     if lab == "pdagf":
         return ch, und, _g.pdag_matrix(p, ch, und).astype(float)
+    if lab in _g.WPDAG_LABS:
+        return (ch, und, _g.weighted_pdag(p, ch, und, lab)) if any(und) else None
     if any(und):
         return None
     return ch, und, _g.np_dag(p, ch, lab)
@@ -167,8 +175,23 @@ def run_unit(unit):
                 for sig, msg in fails:
                     acc.fail("wide", {"k": k, "lab": lab}, sig, msg)
         return acc.out()
+    if unit["stage"] == "big":
+        p = _g.BIG_P
+        for k, (name, ch, und) in enumerate(_g.big_graphs()):
+            for lab in ("pdag",) + (() if any(und) else ("generic", "tiny")):
+                A = _g.pdag_matrix(p, ch, und) if lab == "pdag" else _g.np_dag(p, ch, lab)
+                fails, n = check_graph(p, ch, und, A)
+                acc.states += 1
+                acc.transitions += n
+                acc.traces += 1
+                acc.nontrivial += 1
+                acc.extra["big_p70"] += 1
+                acc.outcome(["big", k, lab])
+                for sig, msg in fails:
+                    acc.fail("big", {"k": k, "lab": lab}, sig, msg)
+        return acc.out()
     p = unit["p"]
-    labs = ("pdag", "pdagf", "pdagF") if unit["stage"] == "pdag" else ("neg", "cancel", "generic", "int")
+    labs = ("pdag", "pdagf", "pdagF") if unit["stage"] == "pdag" else ("neg", "cancel", "generic", "int", "tiny")
     if unit["stage"] == "pdag5":
         labs = ("pdag",)
     if p > 5:
@@ -200,6 +223,10 @@ def run_unit(unit):
 
 
 def replay(kind, case):
+    if kind == "big":
+        name, ch, und = _g.big_graphs()[case["k"]]
+        A = _g.pdag_matrix(_g.BIG_P, ch, und) if case["lab"] == "pdag" else _g.np_dag(_g.BIG_P, ch, case["lab"])
+        return check_graph(_g.BIG_P, ch, und, A)[0]
     if kind == "wide":
         ch = _g.wide_targeted()[case["k"]]
         return check_graph(_g.WIDE_P, ch, [0] * _g.WIDE_P, _g.np_dag(_g.WIDE_P, ch, case["lab"]))[0]
@@ -211,7 +238,7 @@ def describe(tier, seed):
     return {
         "technique": "exhaustive small-scope enumeration of graphs and node subsets on the real code vs set-based definitions",
         "rule": "every PDAG with acyclic directed part p<=4 (int and float 0/1; + sparse 5-node PDAGs) and every DAG p<=4 (p=5 thorough) under "
-                "neg/cancel/generic/int weights and every +-1 sign assignment of the edges (p<=4); wide graphs: every 10-node PDAG with <=2 edges and 80 targeted "
+                "neg/cancel/generic/int weights and every +-1 sign assignment of the edges (p<=4); 7 graphs on 70 nodes whose edges sit on node indices >= 64 (collider, chains, fork, PDAGs with and without extension); wide graphs: every 10-node PDAG with <=2 edges and 80 targeted "
                 "colliders whose parents mix node indices below and above 8 (set iteration order); per graph: only_directed, only_undirected (entries preserved, sum = input), skeleton, "
                 "undirected_edges, directed_edges, edge_weights, vstructures, moral_graph, degrees, is_complete, and induced_subgraph / is_clique "
                 "for every node subset; non-trivial: >= 2 edges",
